@@ -962,8 +962,7 @@ func (t *State) QueryTransaction(txid []byte) (*pb2.Transaction, error) {
 
 func (t *State) clearBalanceCache() {
 	t.log.Info("clear balance cache")
-	t.utxo.BalanceCache = cache.NewLRUCache(t.utxo.CacheSize) //清空balanceCache
-	t.utxo.BalanceViewDirty = map[string]int{}                //清空cache dirty flag表
+	t.utxo.ClearBalanceCache() //清空balanceCache和cache dirty flag表
 	t.xmodel.CleanCache()
 }
 
